@@ -54,7 +54,101 @@ func (p *c17) Cases(tier string, emit func(interface{})) {
 	for _, t := range []string{"int8", "uint8", "int32", "uint32", "int64", "uint64", "string", "enum"} {
 		emit(c17Case{Part: "tuples", Type: t})
 	}
+	// equality laws for the value types that have no order
+	for _, t := range []string{"bits", "empty", "string-list", "int32-list", "enum-list", "identityref-list", "bool-list", "decimal64-list", "uint64-list"} {
+		emit(c17Case{Part: "equality", Type: t})
+	}
 	c17LookupCases(tier, emit)
+}
+
+// c17EqValues: values with a canonical denotation string; equal iff the strings are equal.
+func c17EqValues(t string) []refVal {
+	var out []refVal
+	add := func(v val.Value, canon string) {
+		c := canon
+		out = append(out, refVal{v: v, txt: &c, lbl: canon})
+	}
+	switch t {
+	case "bits":
+		for _, b := range []val.Bits{{}, {Positions: 1, Labels: []string{"x"}}, {Positions: 2, Labels: []string{"y"}}, {Positions: 3, Labels: []string{"x", "y"}}, {Positions: 3, Labels: []string{"y", "x"}}, {Positions: 1 << 63, Labels: []string{"top"}}} {
+			add(b, fmt.Sprint(b.Positions))
+		}
+	case "empty":
+		add(val.NotEmpty, "empty")
+		add(val.NotEmpty, "empty")
+	case "string-list":
+		for _, l := range [][]string{{}, {"a"}, {"a", "b"}, {"b", "a"}, {"a", "a"}, {"ab"}, {"a", ""}} {
+			add(val.StringList(l), fmt.Sprintf("%q", l))
+		}
+	case "int32-list":
+		for _, l := range [][]int32{{}, {1}, {1, 2}, {2, 1}, {1, 1}, {-1}, {12}} {
+			add(val.Int32List(l), fmt.Sprint(l))
+		}
+	case "uint64-list":
+		for _, l := range [][]uint64{{}, {1}, {1, 2}, {2, 1}, {1 << 63}, {1<<64 - 1}} {
+			add(val.UInt64List(l), fmt.Sprint(l))
+		}
+	case "bool-list":
+		for _, l := range [][]bool{{}, {true}, {false}, {true, false}, {false, true}} {
+			add(val.BoolList(l), fmt.Sprint(l))
+		}
+	case "decimal64-list":
+		for _, l := range [][]float64{{}, {1.5}, {1.5, 2}, {2, 1.5}, {-1.5}} {
+			add(val.Decimal64List(l), fmt.Sprint(l))
+		}
+	case "enum-list":
+		e := func(ids ...int) val.EnumList {
+			var l val.EnumList
+			for _, id := range ids {
+				l = append(l, val.Enum{Id: id, Label: fmt.Sprintf("e%d", id)})
+			}
+			return l
+		}
+		for _, ids := range [][]int{{}, {0}, {0, 1}, {1, 0}, {7}} {
+			add(e(ids...), fmt.Sprint(ids))
+		}
+	case "identityref-list":
+		for _, l := range [][]string{{}, {"a"}, {"a", "b"}, {"b", "a"}} {
+			var il val.IdentRefList
+			for _, x := range l {
+				il = append(il, val.IdentRef{Label: x})
+			}
+			add(il, fmt.Sprint(l))
+		}
+	}
+	return out
+}
+
+func c17RunEquality(c c17Case) eng.Result {
+	var res eng.Result
+	vs := c17EqValues(c.Type)
+	seen := map[string]bool{}
+	report := func(law, what string) {
+		sig := "C17/equal/" + c.Type + "/" + law
+		if !seen[sig] {
+			seen[sig] = true
+			res.Add(sig, what)
+		}
+	}
+	for i, a := range vs {
+		for j, b := range vs {
+			var eq bool
+			fr, msg, pan := eng.Recover(func() { eq = val.Equal(a.v, b.v) })
+			res.Evals++
+			if i != j {
+				res.Nontriv++
+			}
+			if pan {
+				report("panic:"+fr, fmt.Sprintf("Equal(%s,%s) panics: %s", a.lbl, b.lbl, msg))
+				continue
+			}
+			if want := *a.txt == *b.txt; eq != want {
+				report("equal-vs-denotation", fmt.Sprintf("Equal(%s,%s)=%v, want %v", a.lbl, b.lbl, eq, want))
+			}
+		}
+	}
+	res.Outcomes = []string{"equality:" + c.Type}
+	return res
 }
 
 // refVal pairs a library value with its reference denotation.
@@ -183,6 +277,8 @@ func (p *c17) Run(raw json.RawMessage) eng.Result {
 		return c17RunTuples(c)
 	case "lookup":
 		return c17RunLookup(c)
+	case "equality":
+		return c17RunEquality(c)
 	}
 	panic("bad part " + c.Part)
 }
